@@ -1458,7 +1458,14 @@ fn c08_case(sink: &mut Sink, w: &World, q: &Query, kind: &str, extra_tags: &[Str
         // front end rejects (syntax outside what this language implements) is not judged
         let compiled = !run.tags.iter().any(|t| t == "front-end:rejected");
         if let (true, Some(o)) = (run.obs.rows.is_some() || compiled, &run.obs_coq) {
-            rec.orc = Some(format!("orc_answer {} {} {mode} {}", run.st_coq, qc, o));
+            // SKIP / LIMIT without a total order: which rows survive is not defined
+            let undefined_cut = (q.skip.is_some() || q.limit.is_some()) && !order_total(q);
+            rec.orc = Some(if undefined_cut {
+                rec.tags.push("oracle:sub-multiset".into());
+                format!("orc_answer_cut {} {} {}", run.st_coq, qc, o)
+            } else {
+                format!("orc_answer {} {} {mode} {}", run.st_coq, qc, o)
+            });
             rec.ks = c08_ks(&run.st_coq, &qc, lang, run.plan_coq.as_deref());
             rec.msg = "engine rows differ from the declarative answer (bindings + clauses) of the abstract query".into();
             if run.obs.rows.is_some() {
@@ -1471,7 +1478,8 @@ fn c08_case(sink: &mut Sink, w: &World, q: &Query, kind: &str, extra_tags: &[Str
         sink.emit(&rec);
     }
     // the same question in two languages (support; each language is also compared with the declarative answer)
-    if results.len() >= 2 {
+    // (not when SKIP / LIMIT cut an unordered result: two engines may legitimately keep different rows)
+    if results.len() >= 2 && !((q.skip.is_some() || q.limit.is_some()) && !order_total(q)) {
         let canon = |o: &Obs| {
             let mut v: Vec<String> = o.rows.as_ref().unwrap().1.iter().map(|r| format!("{:?}", r)).collect();
             if mode == "Bag" {
